@@ -494,6 +494,12 @@ func (g *VCGen) applyContract(fc *FuncContract, pkg *types.Package, names []stri
 	for _, c := range fc.Ensures {
 		g.assumeHere(g.trClause(penv, c))
 	}
+	for _, gs := range fc.GhostSets {
+		nv := env.tr(gs.C.E) // in the pre-state
+		if gv, ok := g.ghostVal(post, gs.Name); ok {
+			g.assumeHere(fmt.Sprintf("(= %s %s)", gv.T, nv.T))
+		}
+	}
 	g.globalFacts(post)
 	return results
 }
